@@ -37,6 +37,10 @@ type Case struct {
 	// spec that collides with it in the internal bucket cache (internal/collide) is created on a
 	// subscope of the same root; the judged histogram must be unaffected
 	Companion int `json:"companion,omitempty"`
+	// Prefix > 0 (explicit spec of >= 2 bounds): before the judged histogram is created from the
+	// caller's table, another histogram is created on a subscope from a PREFIX of that same table
+	// (table[:k], same memory - thresholds cut from one table). The table must stay as it was.
+	Prefix int `json:"prefix,omitempty"`
 }
 
 var boundPool = []float64{0, math.Copysign(0, -1), 1, -1, 0.5, 2, 10, -10, 1e-300, -1e-300, 1e300, -1e300,
@@ -129,6 +133,9 @@ func gen(t *rapid.T) Case {
 	}
 	if rapid.IntRange(0, 2).Draw(t, "companion?") == 0 {
 		c.Companion = rapid.IntRange(1, 4).Draw(t, "companion")
+	}
+	if rapid.IntRange(0, 3).Draw(t, "prefix?") == 0 {
+		c.Prefix = rapid.IntRange(1, 6).Draw(t, "prefix")
 	}
 	nops := rapid.IntRange(1, 24).Draw(t, "nops")
 	for i := 0; i < nops; i++ {
@@ -272,14 +279,30 @@ func run(c Case) (pbt.Outcome, error) {
 			companion = true
 		}
 	}
+	prefixed := false
+	if c.Prefix > 0 && spec != nil {
+		switch b := spec.(type) {
+		case tally.ValueBuckets:
+			if len(b) >= 2 {
+				scope.SubScope("pre").Histogram("other", b[:1+(c.Prefix-1)%(len(b)-1)])
+				prefixed = true
+			}
+		case tally.DurationBuckets:
+			if len(b) >= 2 {
+				scope.SubScope("pre").Histogram("other", b[:1+(c.Prefix-1)%(len(b)-1)])
+				prefixed = true
+			}
+		}
+	}
 	h := scope.Histogram("h", spec)
 
+	// the expectation comes from the pristine copies: the caller's table itself is under test
 	var vpairs []model.VPair
 	var dpairs []model.DPair
 	if isDur {
-		dpairs = model.DurationPairs(dspec)
+		dpairs = model.DurationPairs(dcopy)
 	} else {
-		vpairs = model.ValuePairs(vspec)
+		vpairs = model.ValuePairs(vcopy)
 	}
 
 	// ---- run ops, tracking expectations per upper bound
@@ -511,6 +534,9 @@ func run(c Case) (pbt.Outcome, error) {
 	}
 	if companion {
 		out.Classes = append(out.Classes, "colliding-companion")
+	}
+	if prefixed {
+		out.Classes = append(out.Classes, "prefix-of-shared-table")
 	}
 	if altSingle {
 		out.Classes = append(out.Classes, "empty-spec")
